@@ -1,15 +1,48 @@
 /-
   JdProofs.DiffPatchList — property C01 in LIST mode, strict strategy:
-  applying `a.Diff(b)` to `a` (reference interpreter `Jd.Spec.applyStrictAll`) yields a document
-  structurally equal to `b`.
+  applying `a.Diff(b)` to `a` yields a document equal to `b`.
+
+  The hunks are interpreted by the REFERENCE semantics `Jd.Spec.applyStrictAll` (JdSpec.HunkSem:
+  paths, removed values, before / after context lines all checked), not by the library's patch code.
+
+  Everything lives in the namespace `Jd.DPL` (so that the file can be imported next to the other
+  proof files); definitions on documents are plain functions (`DPL.subterms a`, `DPL.memOK a`, …).
+
+  Main results (all for options `o` with `dispatchTag o = .list` and `isMerge o = false`):
+
+  * `diffM_list_correct` (full nesting: lists in lists, objects, scalars — "Stage C"):
+      for `a b` list documents, well-formed (sorted unique keys), finite numbers, no void member,
+      under `HashOK o a b` (no FNV collision between a sub-term of `a` and a sub-term of `b`) and
+      `ZeroOK a b` (no `0` / `-0` pair between the numbers of `a` and of `b`):
+        ∃ r, applyStrictAll a (diffM o a b) = some r ∧ specEq r b ∧ specEq b r ∧ r.listDoc ∧
+             (PrecMono o → equivB o r b ∧ equals o r b)
+    and `diffM_list_correct_noPrecision` (`precOf o = 0`: `equals o r b` without `PrecMono`).
+  * `diffM_list_correct_scalar_arrays` ("Stage A", kept): arrays of scalars, no `ZeroOK` needed,
+    with the sharper pointwise description of the result (`PWL`: each element is the target's, or
+    an element of the source with the same hash code), any precision (`PrecMono o`).
+  * `Example.hyps`: a concrete pair with a three-hunk diff (one of them inside a nested list)
+    satisfies all the hypotheses.
+  * FINDING (`Example.cexA`, `Example.cexB`): without `ZeroOK` the statement is FALSE for the
+    model and for the Go library: `[1,{"a":0}]` → `[2,{"a":-0}]` produces a hunk whose after-context
+    is wrong, and `a.Patch(a.Diff(b))` fails.
+
+  Structure of the proof: unfolding equations of `diffNode` / `diffKvs` / `diffRest` in list mode
+  and an induction principle with only the reachable branches (`listDiff_induct`, from
+  `diffNode.mutual_induct`); the path argument is a prefix (`diff_shift`); one accumulated list hunk
+  against `splice` (`splice_ok`, `apply_accHunk`); frame lemmas below an index / a key
+  (`applyStrictAll_idx_frame`, `applyStrictAll_key_frame'`); an empty sub-diff means equal hash
+  codes (`diff_empty_hash`), which with the optimality of the golcs common sequence (`LOpt`, from
+  `lcs_optimal`) shows that the sub-diff of two compatible containers that are not common elements is
+  never empty (so the after-context of the accumulated hunk is the element itself); the main
+  induction `diff_correct`.
 -/
 import JdModel
 import JdSpec
 import JdProofs.EqualsList
 import JdProofs.LcsProofs
 
-namespace Jd
-open Jd.Spec
+namespace Jd.DPL
+open Jd Jd.Spec
 
 /-! ## 0. unfolding equations of the diff functions in list mode, strict strategy -/
 
@@ -261,45 +294,45 @@ theorem listDiff_induct (o : Opts) (ho : dispatchTag o = .list)
 /-! ## 1. the path argument is only a prefix -/
 
 /-- prefix the path of a hunk -/
-def Hunk.shift (p : Path) (h : Hunk) : Hunk := { h with path := p ++ h.path }
+def shiftHunk (p : Path) (h : Hunk) : Hunk := { h with path := p ++ h.path }
 
 theorem accHunk_shift (p q : Path) (s : Nat) (prev : Json) (R A : List Json) (after : Json) :
-    accHunk (p ++ q) s prev R A after = (accHunk q s prev R A after).map (Hunk.shift p) := by
+    accHunk (p ++ q) s prev R A after = (accHunk q s prev R A after).map (shiftHunk p) := by
   unfold accHunk
-  split <;> simp [Hunk.shift]
+  split <;> simp [shiftHunk]
 
 theorem diffCommon_shift (p q : Path) (a b : Json) :
-    diffCommon false a b (p ++ q) = (diffCommon false a b q).map (Hunk.shift p) := by
+    diffCommon false a b (p ++ q) = (diffCommon false a b q).map (shiftHunk p) := by
   unfold diffCommon
-  split <;> simp [Hunk.shift]
+  split <;> simp [shiftHunk]
 
 theorem diff_shift (o : Opts) (ho : dispatchTag o = .list) :
     (∀ a b, a.listDoc = true → b.listDoc = true → ∀ p q,
-      diffNode o false a b (p ++ q) = (diffNode o false a b q).map (Hunk.shift p)) ∧
+      diffNode o false a b (p ++ q) = (diffNode o false a b q).map (shiftHunk p)) ∧
     (∀ kvs' kvs, listDocKvs kvs' = true → listDocKvs kvs = true → ∀ p q,
-      diffKvs o false (p ++ q) kvs' kvs = (diffKvs o false q kvs' kvs).map (Hunk.shift p)) ∧
+      diffKvs o false (p ++ q) kvs' kvs = (diffKvs o false q kvs' kvs).map (shiftHunk p)) ∧
     (∀ k s prev a b c R A, listDocList a = true → listDocList b = true → ∀ p q,
       diffRest o (p ++ q) k s prev a b c R A =
-        (diffRest o q k s prev a b c R A).map (Hunk.shift p)) := by
+        (diffRest o q k s prev a b c R A).map (shiftHunk p)) := by
   apply listDiff_induct o ho
     (mN := fun a b => ∀ p q,
-      diffNode o false a b (p ++ q) = (diffNode o false a b q).map (Hunk.shift p))
+      diffNode o false a b (p ++ q) = (diffNode o false a b q).map (shiftHunk p))
     (mK := fun kvs' kvs => ∀ p q,
-      diffKvs o false (p ++ q) kvs' kvs = (diffKvs o false q kvs' kvs).map (Hunk.shift p))
+      diffKvs o false (p ++ q) kvs' kvs = (diffKvs o false q kvs' kvs).map (shiftHunk p))
     (mR := fun k s prev a b c R A => ∀ p q,
       diffRest o (p ++ q) k s prev a b c R A =
-        (diffRest o q k s prev a b c R A).map (Hunk.shift p))
+        (diffRest o q k s prev a b c R A).map (shiftHunk p))
   · intro t t' xs ys ht ht' htt _ _ ih p q
     rw [diffNode_arr_arr ho xs ys ht ht' htt, diffNode_arr_arr ho xs ys ht ht' htt, ih]
   · intro t xs b ht _ _ hb p q
     rw [diffNode_arr_other ho xs b ht hb, diffNode_arr_other ho xs b ht hb]
-    simp [Hunk.shift]
+    simp [shiftHunk]
   · intro kvs kvs' _ _ ih p q
     rw [diffNode_obj_obj, diffNode_obj_obj, ih]
-    simp [Hunk.shift, List.map_map, Function.comp_def]
+    simp [shiftHunk, List.map_map, Function.comp_def]
   · intro kvs b _ _ hb p q
     rw [diffNode_obj_other o kvs b hb, diffNode_obj_other o kvs b hb]
-    simp [Hunk.shift]
+    simp [shiftHunk]
   · intro a b h1 h2 _ p q
     rw [diffNode_scalar o a b h1 h2, diffNode_scalar o a b h1 h2, diffCommon_shift]
   · intro kvs' p q
@@ -308,7 +341,7 @@ theorem diff_shift (o : Opts) (ho : dispatchTag o = .list) :
     rw [diffKvs_cons, diffKvs_cons, ihK, List.map_append]
     congr 1
     cases hlk : alookup k kvs' with
-    | none => simp [Hunk.shift]
+    | none => simp [shiftHunk]
     | some v' =>
       simp only []
       rw [List.append_assoc, ihN v' (alookup_listDoc hlk hl')]
@@ -339,16 +372,16 @@ theorem diff_shift (o : Opts) (ho : dispatchTag o = .list) :
 
 mutual
 /-- no object member is void (void stands for "absent" and never occurs inside a document) -/
-def Json.memOK : Json → Bool
+def memOK : Json → Bool
   | .arr _ xs => memOKList xs
   | .obj kvs => memOKKvs kvs
   | _ => true
 def memOKList : List Json → Bool
   | [] => true
-  | x :: r => x.memOK && memOKList r
+  | x :: r => (memOK x) && memOKList r
 def memOKKvs : List (String × Json) → Bool
   | [] => true
-  | (_, v) :: r => !v.isVoid && v.memOK && memOKKvs r
+  | (_, v) :: r => !v.isVoid && (memOK v) && memOKKvs r
 end
 
 /-- the documents of the theorem -/
@@ -356,7 +389,7 @@ structure Good (x : Json) : Prop where
   listDoc : x.listDoc = true
   wf : x.wf = true
   fin : x.finiteNums = true
-  mem : x.memOK = true
+  mem : (memOK x) = true
 
 structure GoodL (xs : List Json) : Prop where
   listDoc : listDocList xs = true
@@ -405,11 +438,11 @@ theorem good_arr {t : Tag} {xs : List Json} :
     simp only [Json.listDoc, Bool.and_eq_true] at h1
     simp only [Json.wf] at h2
     simp only [Json.finiteNums] at h3
-    simp only [Json.memOK] at h4
+    simp only [memOK] at h4
     exact ⟨h1.1, ⟨h1.2, h2, h3, h4⟩⟩
   · rintro ⟨ht, ⟨g1, g2, g3, g4⟩⟩
     exact ⟨by simp only [Json.listDoc, Bool.and_eq_true]; exact ⟨ht, g1⟩, by simpa [Json.wf] using g2,
-      by simpa [Json.finiteNums] using g3, by simpa [Json.memOK] using g4⟩
+      by simpa [Json.finiteNums] using g3, by simpa [memOK] using g4⟩
 
 theorem good_obj {kvs : List (String × Json)} :
     Good (.obj kvs) ↔ keysSorted kvs = true ∧ GoodK kvs := by
@@ -418,11 +451,11 @@ theorem good_obj {kvs : List (String × Json)} :
     simp only [Json.listDoc] at h1
     simp only [Json.wf, Bool.and_eq_true] at h2
     simp only [Json.finiteNums] at h3
-    simp only [Json.memOK] at h4
+    simp only [memOK] at h4
     exact ⟨h2.1, ⟨h1, h2.2, h3, h4⟩⟩
   · rintro ⟨hs, ⟨g1, g2, g3, g4⟩⟩
     exact ⟨by simpa [Json.listDoc] using g1, by simp [Json.wf, hs, g2],
-      by simpa [Json.finiteNums] using g3, by simpa [Json.memOK] using g4⟩
+      by simpa [Json.finiteNums] using g3, by simpa [memOK] using g4⟩
 
 theorem goodK_cons {k : String} {v : Json} {r : List (String × Json)} :
     GoodK ((k, v) :: r) ↔ (Good v ∧ v.isVoid = false) ∧ GoodK r := by
@@ -693,15 +726,16 @@ theorem AfterOK.cons (x : Json) (post : List Json) (after : Json) (h : specEq af
 /-- applying the accumulated hunk of one pass (or nothing, when nothing was accumulated) -/
 theorem apply_accHunk (L : FloatLaws) (t : Tag) (pre R A post : List Json) (prev after : Json)
     (hR : GoodL R) (hp : PrevOK pre prev) (ha : AfterOK post after) :
-    ∃ t', applyStrictAll (.arr t (pre ++ R ++ post)) (accHunk [] pre.length prev R A after) =
+    ∃ t', (t' = t ∨ t' = .raw) ∧
+      applyStrictAll (.arr t (pre ++ R ++ post)) (accHunk [] pre.length prev R A after) =
       some (.arr t' (pre ++ A ++ post)) := by
   unfold accHunk
   split
   · next h =>
     simp only [Bool.and_eq_true, List.isEmpty_iff] at h
     obtain ⟨rfl, rfl⟩ := h
-    exact ⟨t, by simp [applyStrictAll]⟩
-  · refine ⟨.raw, ?_⟩
+    exact ⟨t, .inl rfl, by simp [applyStrictAll]⟩
+  · refine ⟨.raw, .inr rfl, ?_⟩
     have := splice_ok pre R A post prev after [PathElem.idx (pre.length : Int)]
       (fun x hx => specEq_refl L (hR.of_mem hx)) hp ha
     simp only [applyStrictAll, List.nil_append, applyStrict, this, Option.map_some, Option.bind_some]
@@ -709,14 +743,14 @@ theorem apply_accHunk (L : FloatLaws) (t : Tag) (pre R A post : List Json) (prev
 
 /-! ## 4. Stage A: arrays of scalars -/
 
-def Json.isScalar : Json → Bool
+def isScalar : Json → Bool
   | .arr _ _ => false
   | .obj _ => false
   | _ => true
 
-theorem sameContainerType_scalar (o : Opts) {x : Json} (y : Json) (h : x.isScalar = true) :
+theorem sameContainerType_scalar (o : Opts) {x : Json} (y : Json) (h : (isScalar x) = true) :
     sameContainerType o x y = false := by
-  cases x <;> simp_all [Json.isScalar, sameContainerType, Json.dispatch]
+  cases x <;> simp_all [isScalar, sameContainerType, Json.dispatch]
 
 theorem atC_both_hash {o : Opts} {x y : Json} {c : List UInt64} (hx : atC o x c = true)
     (hy : atC o y c = true) : hashCode o x = hashCode o y := by
@@ -752,14 +786,14 @@ theorem PWL.refl (o : Opts) (a ys : List Json) : PWL o a ys ys := by
 theorem diffRest_scalars (L : FloatLaws) (o : Opts) (ho : dispatchTag o = .list) :
     ∀ k s prev a b c R A, listDocList a = true → listDocList b = true →
       ∀ (t : Tag) (pre : List Json), pre.length = s → k = s + A.length → PrevOK pre prev →
-        GoodL R → GoodL a → GoodL b → (∀ x ∈ a, x.isScalar = true) →
+        GoodL R → GoodL a → GoodL b → (∀ x ∈ a, (isScalar x) = true) →
         (∀ x ∈ a, ∀ y ∈ b, hashCode o x = hashCode o y → Rel x y) →
         ∃ t' zs, applyStrictAll (.arr t (pre ++ R ++ a)) (diffRest o [] k s prev a b c R A) =
             some (.arr t' (pre ++ A ++ zs)) ∧ RelL zs b ∧ PWL o a zs b := by
   refine (listDiff_induct o ho (mN := fun _ _ => True) (mK := fun _ _ => True)
     (mR := fun k s prev a b c R A =>
       ∀ (t : Tag) (pre : List Json), pre.length = s → k = s + A.length → PrevOK pre prev →
-        GoodL R → GoodL a → GoodL b → (∀ x ∈ a, x.isScalar = true) →
+        GoodL R → GoodL a → GoodL b → (∀ x ∈ a, (isScalar x) = true) →
         (∀ x ∈ a, ∀ y ∈ b, hashCode o x = hashCode o y → Rel x y) →
         ∃ t' zs, applyStrictAll (.arr t (pre ++ R ++ a)) (diffRest o [] k s prev a b c R A) =
             some (.arr t' (pre ++ A ++ zs)) ∧ RelL zs b ∧ PWL o a zs b)
@@ -769,14 +803,14 @@ theorem diffRest_scalars (L : FloatLaws) (o : Opts) (ho : dispatchTag o = .list)
     intro k s prev c R A b _ t pre hlen hk hp hR _ hb _ _
     subst hlen
     rw [diffRest_nilA]
-    obtain ⟨t', h⟩ := apply_accHunk L t pre R (A ++ b) [] prev .void hR hp AfterOK.nil
+    obtain ⟨t', ht', h⟩ := apply_accHunk L t pre R (A ++ b) [] prev .void hR hp AfterOK.nil
     refine ⟨t', b, ?_, RelL.refl L hb, PWL.refl o _ b⟩
     simpa [List.append_assoc] using h
   · -- end of b
     intro k s prev c R A a hne _ t pre hlen hk hp hR ha _ _ _
     subst hlen
     rw [diffRest_nilB _ _ _ _ _ _ _ _ _ hne]
-    obtain ⟨t', h⟩ := apply_accHunk L t pre (R ++ a) A [] prev .void (hR.append ha) hp AfterOK.nil
+    obtain ⟨t', ht', h⟩ := apply_accHunk L t pre (R ++ a) A [] prev .void (hR.append ha) hp AfterOK.nil
     refine ⟨t', [], ?_, .nil, .nil⟩
     simpa [List.append_assoc] using h
   · -- both cursors at the next common element
@@ -786,7 +820,7 @@ theorem diffRest_scalars (L : FloatLaws) (o : Opts) (ho : dispatchTag o = .list)
     rw [diffRest_cons]
     simp only [hA, hB, Bool.and_self, if_true]
     have hxy : Rel x y := hh x List.mem_cons_self y List.mem_cons_self (atC_both_hash hA hB)
-    obtain ⟨t1, h1⟩ := apply_accHunk L t pre R A (x :: a') prev x hR hp
+    obtain ⟨t1, ht1, h1⟩ := apply_accHunk L t pre R A (x :: a') prev x hR hp
       (AfterOK.cons x a' x (specEq_refl L ha.1))
     obtain ⟨t', zs, h2, hrel, hpw⟩ := ih t1 (pre ++ A ++ [x]) (by simp; omega) rfl
       (PrevOK.concat _ x y hxy.2) GoodL.nil ha.2 hb.2
@@ -878,6 +912,65 @@ theorem equivB_of_specEq {o : Opts} (h : dispatchTag o = .list) (hp : precOf o =
   rw [equivB_congr o [] h rfl (by simpa [precOf] using hp)]
   exact hab
 
+/-! ### from structural equality to the advertised equivalence under a precision -/
+
+mutual
+theorem equivB_mono (o : Opts) (h : dispatchTag o = .list)
+    (hm : ∀ u v, numWithin 0 u v = true → numWithin (precOf o) u v = true) :
+    ∀ (a b : Json), equivB [] a b = true → equivB o a b = true
+  | .void, b, e => by cases b <;> simp_all [equivB]
+  | .null, b, e => by cases b <;> simp_all [equivB]
+  | .bool _, b, e => by cases b <;> simp_all [equivB]
+  | .num u, b, e => by
+    cases b with
+    | num v => simp only [equivB, precOf] at e ⊢; exact hm u v e
+    | _ => simp [equivB] at e
+  | .str _, b, e => by cases b <;> simp_all [equivB]
+  | .arr t xs, b, e => by
+    cases b with
+    | arr t' ys =>
+      simp only [equivB, dispatchTag, h] at e ⊢
+      exact equivList_mono o h hm xs ys e
+    | _ => simp [equivB] at e
+  | .obj kvs, b, e => by
+    cases b with
+    | obj kvs' =>
+      simp only [equivB, Bool.and_eq_true] at e ⊢
+      exact ⟨e.1, equivKvs_mono o h hm kvs kvs' e.2⟩
+    | _ => simp [equivB] at e
+theorem equivList_mono (o : Opts) (h : dispatchTag o = .list)
+    (hm : ∀ u v, numWithin 0 u v = true → numWithin (precOf o) u v = true) :
+    ∀ (xs ys : List Json), equivList [] xs ys = true → equivList o xs ys = true
+  | [], ys, e => by cases ys <;> simp_all [equivList]
+  | x :: xs, [], e => by simp [equivList] at e
+  | x :: xs, y :: ys, e => by
+    simp only [equivList, Bool.and_eq_true] at e ⊢
+    exact ⟨equivB_mono o h hm x y e.1, equivList_mono o h hm xs ys e.2⟩
+theorem equivKvs_mono (o : Opts) (h : dispatchTag o = .list)
+    (hm : ∀ u v, numWithin 0 u v = true → numWithin (precOf o) u v = true) :
+    ∀ (kvs kvs' : List (String × Json)), equivKvs [] kvs kvs' = true → equivKvs o kvs kvs' = true
+  | [], _, _ => by simp [equivKvs]
+  | (k, v) :: r, kvs', e => by
+    rw [equivKvs, Bool.and_eq_true] at e ⊢
+    refine ⟨?_, equivKvs_mono o h hm r kvs' e.2⟩
+    cases hl : alookup k kvs' with
+    | none => simp [hl] at e
+    | some v' =>
+      have e1 := e.1
+      simp only [hl] at e1 ⊢
+      exact equivB_mono o h hm v v' e1
+end
+
+
+/-- a float within `0` of another is within the precision of `o` of it (true for every IEEE
+    `eps ≥ 0`; `numWithin` is opaque to the kernel, so it is a hypothesis; trivial when `o` has no
+    precision option) -/
+def PrecMono (o : Opts) : Prop :=
+  ∀ u v, numWithin 0 u v = true → numWithin (precOf o) u v = true
+
+theorem PrecMono.of_noPrecision {o : Opts} (h : precOf o = 0) : PrecMono o := by
+  intro u v e; rw [h]; exact e
+
 theorem applyStrict_root_replace (a a' b : Json)
     (ha' : specEq a a' = true) :
     applyStrictAll a [{ path := [], remove := [a'], add := [b] }] = some b := by
@@ -885,16 +978,18 @@ theorem applyStrict_root_replace (a a' b : Json)
 
 /-- **Stage A.** Arrays of scalars, list mode (any options whose array reading is "list", e.g. a
     precision), strict strategy: the diff applies to its source, and the result is the target with
-    some elements replaced by elements of the source carrying the same hash code; under `HashOK`
-    (no hash collision between non-equal elements) that is structurally equal to the target. -/
+    some elements replaced by elements of the source carrying the same hash code (`PWL`); as
+    hash-equal elements are structurally equal (hypothesis: no collision) the result is
+    structurally equal to the target, hence equivalent to it under `o` (`PrecMono o`: trivial
+    without a precision option). No hypothesis about `0` / `-0` is needed here. -/
 theorem diffM_list_correct_scalar_arrays (L : FloatLaws) (o : Opts) (ho : dispatchTag o = .list)
     (hm : isMerge o = false) (t t' : Tag) (xs ys : List Json)
-    (ha : Good (.arr t xs)) (hb : Good (.arr t' ys)) (hsc : ∀ x ∈ xs, x.isScalar = true)
+    (ha : Good (.arr t xs)) (hb : Good (.arr t' ys)) (hsc : ∀ x ∈ xs, (isScalar x) = true)
     (HashOK : ∀ x ∈ xs, ∀ y ∈ ys, hashCode o x = hashCode o y →
       specEq x y = true ∧ specEq y x = true) :
     ∃ t'' zs, applyStrictAll (.arr t xs) (diffM o (.arr t xs) (.arr t' ys)) = some (.arr t'' zs) ∧
       PWL o xs zs ys ∧ specEq (.arr t'' zs) (.arr t' ys) = true ∧
-      (precOf o = 0 → equivB o (.arr t'' zs) (.arr t' ys) = true) := by
+      (PrecMono o → equivB o (.arr t'' zs) (.arr t' ys) = true) := by
   have ha' := good_arr.1 ha
   have hb' := good_arr.1 hb
   unfold diffM
@@ -905,17 +1000,16 @@ theorem diffM_list_correct_scalar_arrays (L : FloatLaws) (o : Opts) (ho : dispat
       (lcsValues (hashList o xs) (hashList o ys)) [] [] ha'.2.listDoc hb'.2.listDoc t [] rfl rfl
       (by simp [PrevOK, Json.isVoid]) GoodL.nil ha'.2 hb'.2 hsc HashOK
     refine ⟨t'', zs, by simpa using h, hpw, (Rel.arr hrel t'' t').1,
-      fun hp => equivB_of_specEq ho hp (Rel.arr hrel t'' t').1⟩
+      fun hp => equivB_mono o ho hp _ _ (Rel.arr hrel t'' t').1⟩
   · have htt' : t = .list ∧ t' = .raw := by
       have h1 := ha'.1; have h2 := hb'.1
       cases t <;> cases t' <;> simp_all
     obtain ⟨rfl, rfl⟩ := htt'
     rw [diffNode_arr_other ho xs _ ha'.1 (.inr ⟨rfl, ys, rfl⟩)]
     have hr : Rel (.arr .raw ys) (.arr .raw ys) := Rel.refl L hb
-    refine ⟨.raw, ys, ?_, PWL.refl o xs ys, hr.1, fun hp => equivB_of_specEq ho hp hr.1⟩
+    refine ⟨.raw, ys, ?_, PWL.refl o xs ys, hr.1, fun hp => equivB_mono o ho hp _ _ hr.1⟩
     exact applyStrict_root_replace _ _ _ (Rel.arr (RelL.refl L ha'.2) _ _).1
 
-#print axioms Jd.diffM_list_correct_scalar_arrays
 
 
 
@@ -1054,11 +1148,11 @@ theorem alookup_aerase_self {β} (k : String) :
 
 /-- a hunk that can be moved below a list index: it addresses something inside the element, or it
     replaces the element as a whole (one value removed, one added, no context) -/
-def Hunk.frameOK (h : Hunk) : Prop :=
+def frameOK (h : Hunk) : Prop :=
   h.path ≠ [] ∨ (h.before = [] ∧ h.after = [] ∧ h.remove.length = 1 ∧ h.add.length = 1)
 
 theorem applyStrict_idx_frame (t : Tag) (l : List Json) (k : Nat) (x : Json) (hx : l[k]? = some x)
-    (h : Hunk) (hf : h.frameOK) :
+    (h : Hunk) (hf : (frameOK h)) :
     applyStrict (.arr t l) (.idx (k : Int) :: h.path) h =
       (applyStrict x h.path h).map (fun v => .arr .raw (l.set k v)) := by
   have hk : k < l.length := by
@@ -1117,17 +1211,18 @@ theorem applyStrict_path_irrel (q : Path) (n : Json) (p : Path) (h : Hunk) :
   fun_induction applyStrict n p h <;> simp_all [applyStrict, splice_path_irrel]
   intro hlt; omega
 
-theorem applyStrictAll_idx_frame (D : Diff) (hD : ∀ h ∈ D, h.frameOK) :
+theorem applyStrictAll_idx_frame (D : Diff) (hD : ∀ h ∈ D, (frameOK h)) :
     ∀ (t : Tag) (l : List Json) (k : Nat) (x : Json), l[k]? = some x →
       ∀ r, applyStrictAll x D = some r →
-      ∃ t', applyStrictAll (.arr t l) (D.map (Hunk.shift [.idx (k : Int)])) =
+      ∃ t', (t' = t ∨ t' = .raw) ∧
+        applyStrictAll (.arr t l) (D.map (shiftHunk [.idx (k : Int)])) =
         some (.arr t' (l.set k r)) := by
   induction D with
   | nil =>
     intro t l k x hx r hr
     simp only [applyStrictAll, Option.some.injEq] at hr
     subst hr
-    refine ⟨t, ?_⟩
+    refine ⟨t, .inl rfl, ?_⟩
     have hk : k < l.length := by
       rcases Nat.lt_or_ge k l.length with h | h
       · exact h
@@ -1147,10 +1242,10 @@ theorem applyStrictAll_idx_frame (D : Diff) (hD : ∀ h ∈ D, h.frameOK) :
         rcases Nat.lt_or_ge k l.length with h | h
         · exact h
         · rw [List.getElem?_eq_none h] at hx; cases hx
-      obtain ⟨t', h'⟩ := ih (fun h' hm => hD h' (List.mem_cons_of_mem _ hm)) .raw (l.set k v) k v
+      obtain ⟨t', ht', h'⟩ := ih (fun h' hm => hD h' (List.mem_cons_of_mem _ hm)) .raw (l.set k v) k v
         (List.getElem?_set_self hk) r hr
-      refine ⟨t', ?_⟩
-      simp only [List.map_cons, applyStrictAll, Hunk.shift, List.cons_append, List.nil_append]
+      refine ⟨t', .inr (by rcases ht' with e | e <;> exact e), ?_⟩
+      simp only [List.map_cons, applyStrictAll, shiftHunk, List.cons_append, List.nil_append]
       have := applyStrict_idx_frame t l k x hx h (hD h List.mem_cons_self)
       have e : applyStrict (.arr t l) (.idx (k : Int) :: h.path)
           { h with path := .idx (k : Int) :: h.path } =
@@ -1196,7 +1291,7 @@ theorem applyStrict_key (kvs : List (String × Json)) (k : String) (q : Path) (h
 theorem applyStrictAll_key_frame (D : Diff) (k : String) :
     ∀ (cur : List (String × Json)), keysSorted cur = true →
       ∀ r, applyStrictAll ((alookup k cur).getD .void) D = some r →
-      ∃ cur', applyStrictAll (.obj cur) (D.map (Hunk.shift [.key k])) = some (.obj cur') ∧
+      ∃ cur', applyStrictAll (.obj cur) (D.map (shiftHunk [.key k])) = some (.obj cur') ∧
         keysSorted cur' = true ∧ (∀ k0, k0 ≠ k → alookup k0 cur' = alookup k0 cur) ∧
         (alookup k cur').getD .void = r := by
   induction D with
@@ -1216,7 +1311,7 @@ theorem applyStrictAll_key_frame (D : Diff) (k : String) :
       rw [← alookup_aput_self k v cur hs] at hr
       obtain ⟨cur', h1, h2, h3, h4⟩ := ih (aput k v cur) hs1 r hr
       refine ⟨cur', ?_, h2, fun k0 hne => by rw [h3 k0 hne, alookup_aput_ne hne], h4⟩
-      simp only [List.map_cons, applyStrictAll, Hunk.shift, List.cons_append, List.nil_append]
+      simp only [List.map_cons, applyStrictAll, shiftHunk, List.cons_append, List.nil_append]
       rw [applyStrict_path_irrel, applyStrict_key, hv]
       simp only [Option.map_some, Option.bind_some]
       exact h1
@@ -1228,23 +1323,23 @@ theorem applyStrictAll_key_frame (D : Diff) (k : String) :
 
 mutual
 /-- all sub-terms of a document, the document included -/
-def Json.subterms : Json → List Json
+def subterms : Json → List Json
   | .arr t xs => .arr t xs :: subtermsList xs
   | .obj kvs => .obj kvs :: subtermsKvs kvs
   | n => [n]
 def subtermsList : List Json → List Json
   | [] => []
-  | x :: r => x.subterms ++ subtermsList r
+  | x :: r => (subterms x) ++ subtermsList r
 def subtermsKvs : List (String × Json) → List Json
   | [] => []
-  | (_, v) :: r => v.subterms ++ subtermsKvs r
+  | (_, v) :: r => (subterms v) ++ subtermsKvs r
 end
 
-theorem self_mem_subterms (x : Json) : x ∈ x.subterms := by
-  cases x <;> simp [Json.subterms]
+theorem self_mem_subterms (x : Json) : x ∈ (subterms x) := by
+  cases x <;> simp [subterms]
 
 theorem subterms_of_mem_kvs {k : String} {v : Json} :
-    ∀ {kvs : List (String × Json)}, (k, v) ∈ kvs → ∀ z, z ∈ v.subterms → z ∈ subtermsKvs kvs
+    ∀ {kvs : List (String × Json)}, (k, v) ∈ kvs → ∀ z, z ∈ (subterms v) → z ∈ subtermsKvs kvs
   | [], h, _, _ => by cases h
   | (k', v') :: r, h, z, hz => by
     simp only [subtermsKvs, List.mem_append]
@@ -1255,24 +1350,24 @@ theorem subterms_of_mem_kvs {k : String} {v : Json} :
 /-- `S ⊆ T` for lists, spelled out (core `List.Subset`) -/
 abbrev Sub (l S : List Json) : Prop := ∀ z, z ∈ l → z ∈ S
 
-theorem sub_arr {t : Tag} {xs S : List Json} (h : Sub (Json.arr t xs).subterms S) :
+theorem sub_arr {t : Tag} {xs S : List Json} (h : Sub (subterms (Json.arr t xs)) S) :
     Sub (subtermsList xs) S :=
-  fun z hz => h z (by simp [Json.subterms, hz])
+  fun z hz => h z (by simp [subterms, hz])
 
-theorem sub_obj {kvs : List (String × Json)} {S : List Json} (h : Sub (Json.obj kvs).subterms S) :
+theorem sub_obj {kvs : List (String × Json)} {S : List Json} (h : Sub (subterms (Json.obj kvs)) S) :
     Sub (subtermsKvs kvs) S :=
-  fun z hz => h z (by simp [Json.subterms, hz])
+  fun z hz => h z (by simp [subterms, hz])
 
 theorem sub_cons {x : Json} {r S : List Json} (h : Sub (subtermsList (x :: r)) S) :
-    Sub x.subterms S ∧ Sub (subtermsList r) S :=
+    Sub (subterms x) S ∧ Sub (subtermsList r) S :=
   ⟨fun z hz => h z (by simp [subtermsList, hz]), fun z hz => h z (by simp [subtermsList, hz])⟩
 
 theorem sub_kvs_cons {k : String} {v : Json} {r : List (String × Json)} {S : List Json}
-    (h : Sub (subtermsKvs ((k, v) :: r)) S) : Sub v.subterms S ∧ Sub (subtermsKvs r) S :=
+    (h : Sub (subtermsKvs ((k, v) :: r)) S) : Sub (subterms v) S ∧ Sub (subtermsKvs r) S :=
   ⟨fun z hz => h z (by simp [subtermsKvs, hz]), fun z hz => h z (by simp [subtermsKvs, hz])⟩
 
 theorem sub_lookup {k : String} {v : Json} {kvs : List (String × Json)} {S : List Json}
-    (h : Sub (subtermsKvs kvs) S) (hl : alookup k kvs = some v) : Sub v.subterms S :=
+    (h : Sub (subtermsKvs kvs) S) (hl : alookup k kvs = some v) : Sub (subterms v) S :=
   fun z hz => h z (subterms_of_mem_kvs (mem_of_alookup hl) z hz)
 
 /-- The hypotheses about hash codes, for the sub-terms `S` of the source and `T` of the target.
@@ -1419,7 +1514,7 @@ theorem diffCommon_empty_hash (o : Opts) {S T : List Json} (N : NoCollision o S 
 theorem diff_empty_hash (o : Opts) (ho : dispatchTag o = .list) {S T : List Json}
     (N : NoCollision o S T) :
     (∀ a b, a.listDoc = true → b.listDoc = true →
-      Sub a.subterms S → Sub b.subterms T → Good a → Good b →
+      Sub (subterms a) S → Sub (subterms b) T → Good a → Good b →
       ∀ p, diffNode o false a b p = [] → hashCode o a = hashCode o b) ∧
     (∀ kvs' kvs, listDocKvs kvs' = true → listDocKvs kvs = true →
       Sub (subtermsKvs kvs) S → Sub (subtermsKvs kvs') T → GoodK kvs → GoodK kvs' →
@@ -1429,7 +1524,7 @@ theorem diff_empty_hash (o : Opts) (ho : dispatchTag o = .list) {S T : List Json
       Sub (subtermsList a) S → Sub (subtermsList b) T → GoodL a → GoodL b →
       ∀ p, diffRest o p k s prev a b c R A = [] → R = [] ∧ A = [] ∧ hashList o a = hashList o b) := by
   apply listDiff_induct o ho
-    (mN := fun a b => Sub a.subterms S → Sub b.subterms T → Good a → Good b →
+    (mN := fun a b => Sub (subterms a) S → Sub (subterms b) T → Good a → Good b →
       ∀ p, diffNode o false a b p = [] → hashCode o a = hashCode o b)
     (mK := fun kvs' kvs => Sub (subtermsKvs kvs) S → Sub (subtermsKvs kvs') T → GoodK kvs →
       GoodK kvs' → ∀ p, diffKvs o false p kvs' kvs = [] →
@@ -1528,14 +1623,14 @@ theorem diff_empty_hash (o : Opts) (ho : dispatchTag o = .list) {S T : List Json
 
 theorem diffNode_at (o : Opts) (ho : dispatchTag o = .list) (a b : Json) (ha : a.listDoc = true)
     (hb : b.listDoc = true) (e : PathElem) :
-    diffNode o false a b ([] ++ [e]) = (diffNode o false a b []).map (Hunk.shift [e]) := by
+    diffNode o false a b ([] ++ [e]) = (diffNode o false a b []).map (shiftHunk [e]) := by
   have := (diff_shift o ho).1 a b ha hb [e] []
   simpa using this
 
-theorem shift_path_ne_nil (e : PathElem) {D : Diff} {h : Hunk} (hm : h ∈ D.map (Hunk.shift [e])) :
+theorem shift_path_ne_nil (e : PathElem) {D : Diff} {h : Hunk} (hm : h ∈ D.map (shiftHunk [e])) :
     h.path ≠ [] := by
   obtain ⟨h', _, rfl⟩ := List.mem_map.1 hm
-  simp [Hunk.shift]
+  simp [shiftHunk]
 
 theorem accHunk_path_ne_nil {s : Nat} {prev : Json} {R A : List Json} {after : Json} {h : Hunk}
     (hm : h ∈ accHunk [] s prev R A after) : h.path ≠ [] := by
@@ -1546,14 +1641,14 @@ theorem accHunk_path_ne_nil {s : Nat} {prev : Json} {R A : List Json} {after : J
 
 theorem diff_frameOK (o : Opts) (ho : dispatchTag o = .list) :
     (∀ a b, a.listDoc = true → b.listDoc = true → a.isVoid = false → b.isVoid = false →
-      ∀ h ∈ diffNode o false a b [], h.frameOK) ∧
+      ∀ h ∈ diffNode o false a b [], (frameOK h)) ∧
     (∀ kvs' kvs, listDocKvs kvs' = true → listDocKvs kvs = true →
       ∀ h ∈ diffKvs o false [] kvs' kvs, h.path ≠ []) ∧
     (∀ k s prev a b c R A, listDocList a = true → listDocList b = true →
       ∀ h ∈ diffRest o [] k s prev a b c R A, h.path ≠ []) := by
   apply listDiff_induct o ho
     (mN := fun a b => a.isVoid = false → b.isVoid = false →
-      ∀ h ∈ diffNode o false a b [], h.frameOK)
+      ∀ h ∈ diffNode o false a b [], (frameOK h))
     (mK := fun kvs' kvs => ∀ h ∈ diffKvs o false [] kvs' kvs, h.path ≠ [])
     (mR := fun k s prev a b c R A => ∀ h ∈ diffRest o [] k s prev a b c R A, h.path ≠ [])
   · intro t t' xs ys ht ht' htt _ _ ih _ _ h hm
@@ -1646,7 +1741,7 @@ theorem applyStrictAll_key_frame' (D : Diff) (k : String) :
     ∀ (cur : List (String × Json)) (x : Json), keysSorted cur = true →
       alookup k cur = (if x.isVoid then none else some x) →
       ∀ r, applyStrictAll x D = some r →
-      ∃ cur', applyStrictAll (.obj cur) (D.map (Hunk.shift [.key k])) = some (.obj cur') ∧
+      ∃ cur', applyStrictAll (.obj cur) (D.map (shiftHunk [.key k])) = some (.obj cur') ∧
         keysSorted cur' = true ∧ (∀ k0, k0 ≠ k → alookup k0 cur' = alookup k0 cur) ∧
         alookup k cur' = (if r.isVoid then none else some r) := by
   induction D with
@@ -1674,7 +1769,7 @@ theorem applyStrictAll_key_frame' (D : Diff) (k : String) :
         · rw [alookup_ainsert, if_pos rfl]
       obtain ⟨cur', h1, h2, h3, h4⟩ := ih (aput k v cur) v hs1 hx1 r hr
       refine ⟨cur', ?_, h2, fun k0 hne => by rw [h3 k0 hne, alookup_aput_ne hne], h4⟩
-      simp only [List.map_cons, applyStrictAll, Hunk.shift, List.cons_append, List.nil_append]
+      simp only [List.map_cons, applyStrictAll, shiftHunk, List.cons_append, List.nil_append]
       rw [applyStrict_path_irrel, applyStrict_key, hget, hv]
       simp only [Option.map_some, Option.bind_some]
       exact h1
@@ -1727,9 +1822,9 @@ theorem apply_adds (P : String → Bool) :
       refine ⟨cur', ?_, g2, ?_, ?_⟩
       · simp only [List.filter_cons, hP, if_true, List.map_cons]
         have e : addHunk (k, v') :: List.map addHunk (List.filter (fun kv => P kv.1) r) =
-            List.map (Hunk.shift [.key k]) [{ path := [], add := v'.nodeList }] ++
+            List.map (shiftHunk [.key k]) [{ path := [], add := v'.nodeList }] ++
             List.map addHunk (List.filter (fun kv => P kv.1) r) := by
-          simp [Hunk.shift, addHunk]
+          simp [shiftHunk, addHunk]
         rw [e, applyStrictAll_append, h1]
         exact g1
       · intro k0 hk0
@@ -1775,11 +1870,28 @@ theorem hashList_cons (o : Opts) (x : Json) (r : List Json) :
     hashList o (x :: r) = hashCode o x :: hashList o r := by
   simp [hashList]
 
+theorem listDocKvs_of_lookup :
+    ∀ (l : List (String × Json)), keysSorted l = true →
+      (∀ k v, alookup k l = some v → v.listDoc = true) → listDocKvs l = true
+  | [], _, _ => rfl
+  | (k, v) :: r, hs, h => by
+    have hs' := keysSorted_cons_iff.1 hs
+    simp only [listDocKvs, Bool.and_eq_true]
+    refine ⟨h k v (by simp [alookup]), listDocKvs_of_lookup r hs'.2 (fun k1 v1 hl => ?_)⟩
+    have hne : k1 ≠ k := fun e => String.lt_irrefl k (e ▸ hs'.1 k1 v1 (mem_of_alookup hl))
+    exact h k1 v1 (by simpa [alookup, hne] using hl)
+
+theorem okTag_of {t t' : Tag} (ht : (t == .raw || t == .list) = true) (h : t' = t ∨ t' = .raw) :
+    (t' == .raw || t' == .list) = true := by
+  rcases h with rfl | rfl
+  · exact ht
+  · rfl
+
 theorem diff_correct (L : FloatLaws) (o : Opts) (ho : dispatchTag o = .list) {S T : List Json}
     (N : NoCollision o S T) :
     (∀ a b, a.listDoc = true → b.listDoc = true →
-      Sub a.subterms S → Sub b.subterms T → Good a → Good b →
-      ∃ r, applyStrictAll a (diffNode o false a b []) = some r ∧ Rel r b) ∧
+      Sub (subterms a) S → Sub (subterms b) T → Good a → Good b →
+      ∃ r, applyStrictAll a (diffNode o false a b []) = some r ∧ Rel r b ∧ r.listDoc = true) ∧
     (∀ kvs' kvs, listDocKvs kvs' = true → listDocKvs kvs = true →
       Sub (subtermsKvs kvs) S → Sub (subtermsKvs kvs') T → GoodK kvs → GoodK kvs' →
       keysSorted kvs = true → ∀ cur, keysSorted cur = true →
@@ -1789,16 +1901,17 @@ theorem diff_correct (L : FloatLaws) (o : Opts) (ho : dispatchTag o = .list) {S 
         (∀ k0, (∀ v, (k0, v) ∉ kvs) → alookup k0 cur' = alookup k0 cur) ∧
         (∀ k v, (k, v) ∈ kvs → match alookup k kvs' with
           | none => alookup k cur' = none
-          | some v' => ∃ z, alookup k cur' = some z ∧ Rel z v')) ∧
+          | some v' => ∃ z, alookup k cur' = some z ∧ Rel z v' ∧ z.listDoc = true)) ∧
     (∀ k s prev a b c R A, listDocList a = true → listDocList b = true →
       ∀ (t : Tag) (pre : List Json), pre.length = s → k = s + A.length → PrevOK pre prev →
         GoodL R → GoodL a → GoodL b → Sub (subtermsList a) S → Sub (subtermsList b) T →
         LOpt c (hashList o a) (hashList o b) →
-        ∃ t' zs, applyStrictAll (.arr t (pre ++ R ++ a)) (diffRest o [] k s prev a b c R A) =
-            some (.arr t' (pre ++ A ++ zs)) ∧ RelL zs b) := by
+        ∃ t' zs, (t' = t ∨ t' = .raw) ∧
+          applyStrictAll (.arr t (pre ++ R ++ a)) (diffRest o [] k s prev a b c R A) =
+            some (.arr t' (pre ++ A ++ zs)) ∧ RelL zs b ∧ listDocList zs = true) := by
   apply listDiff_induct o ho
-    (mN := fun a b => Sub a.subterms S → Sub b.subterms T → Good a → Good b →
-      ∃ r, applyStrictAll a (diffNode o false a b []) = some r ∧ Rel r b)
+    (mN := fun a b => Sub (subterms a) S → Sub (subterms b) T → Good a → Good b →
+      ∃ r, applyStrictAll a (diffNode o false a b []) = some r ∧ Rel r b ∧ r.listDoc = true)
     (mK := fun kvs' kvs => Sub (subtermsKvs kvs) S → Sub (subtermsKvs kvs') T → GoodK kvs →
       GoodK kvs' → keysSorted kvs = true → ∀ cur, keysSorted cur = true →
       (∀ k v, (k, v) ∈ kvs → alookup k cur = some v) →
@@ -1807,23 +1920,26 @@ theorem diff_correct (L : FloatLaws) (o : Opts) (ho : dispatchTag o = .list) {S 
         (∀ k0, (∀ v, (k0, v) ∉ kvs) → alookup k0 cur' = alookup k0 cur) ∧
         (∀ k v, (k, v) ∈ kvs → match alookup k kvs' with
           | none => alookup k cur' = none
-          | some v' => ∃ z, alookup k cur' = some z ∧ Rel z v'))
+          | some v' => ∃ z, alookup k cur' = some z ∧ Rel z v' ∧ z.listDoc = true))
     (mR := fun k s prev a b c R A =>
       ∀ (t : Tag) (pre : List Json), pre.length = s → k = s + A.length → PrevOK pre prev →
         GoodL R → GoodL a → GoodL b → Sub (subtermsList a) S → Sub (subtermsList b) T →
         LOpt c (hashList o a) (hashList o b) →
-        ∃ t' zs, applyStrictAll (.arr t (pre ++ R ++ a)) (diffRest o [] k s prev a b c R A) =
-            some (.arr t' (pre ++ A ++ zs)) ∧ RelL zs b)
+        ∃ t' zs, (t' = t ∨ t' = .raw) ∧
+          applyStrictAll (.arr t (pre ++ R ++ a)) (diffRest o [] k s prev a b c R A) =
+            some (.arr t' (pre ++ A ++ zs)) ∧ RelL zs b ∧ listDocList zs = true)
   · -- list against list
     intro t t' xs ys ht ht' htt _ _ ih hS hT ha hb
     rw [diffNode_arr_arr ho xs ys ht ht' htt]
-    obtain ⟨t'', zs, h, hrel⟩ := ih t [] rfl rfl (by simp [PrevOK, Json.isVoid]) GoodL.nil
+    obtain ⟨t'', zs, htag, h, hrel, hld⟩ := ih t [] rfl rfl (by simp [PrevOK, Json.isVoid]) GoodL.nil
       (good_arr.1 ha).2 (good_arr.1 hb).2 (sub_arr hS) (sub_arr hT) (LOpt.lcs _ _)
-    exact ⟨.arr t'' zs, by simpa using h, Rel.arr hrel t'' t'⟩
+    refine ⟨.arr t'' zs, by simpa using h, Rel.arr hrel t'' t', ?_⟩
+    simp only [Json.listDoc, Bool.and_eq_true]
+    exact ⟨okTag_of ht htag, hld⟩
   · -- list against something else: replaced as a whole
     intro t xs b ht _ _ hb' _ _ ha hb
     rw [diffNode_arr_other ho xs b ht hb']
-    refine ⟨b, ?_, Rel.refl L hb⟩
+    refine ⟨b, ?_, Rel.refl L hb, hb.listDoc⟩
     have := apply_root (.arr t xs) [.arr .list xs] b.nodeList (by simp)
       (by simp only [Json.nodeList]; split <;> simp)
       (by simpa [single, Json.singleValue] using (Rel.arr (RelL.refl L (good_arr.1 ha).2) t .list).1)
@@ -1839,9 +1955,28 @@ theorem diff_correct (L : FloatLaws) (o : Opts) (ho : dispatchTag o = .list) {S 
       hb'.1 hb'.2 cur1 hs1 (fun k v' _ hP => by
         have hk : alookup k kvs = none := by simpa using hP
         rw [hother1 k (fun v hm => by rw [alookup_of_mem ha'.1 hm] at hk; cases hk), hk])
-    refine ⟨.obj cur2, ?_, Rel.obj hs2 hb'.1 ?_⟩
-    · rw [applyStrictAll_append, h1]
-      exact h2
+    have hfin : ∀ k, match alookup k kvs' with
+        | none => alookup k cur2 = none
+        | some v' => ∃ z, alookup k cur2 = some z ∧ Rel z v' ∧ z.listDoc = true := ?_
+    · refine ⟨.obj cur2, ?_, Rel.obj hs2 hb'.1 (fun k => ?_), ?_⟩
+      · rw [applyStrictAll_append, h1]
+        exact h2
+      · have := hfin k
+        cases hlk' : alookup k kvs' with
+        | none => rw [hlk'] at this; exact this
+        | some v' =>
+          rw [hlk'] at this
+          obtain ⟨z, hz, hr, _⟩ := this
+          exact ⟨z, hz, hr⟩
+      · simp only [Json.listDoc]
+        refine listDocKvs_of_lookup cur2 hs2 (fun k z hz => ?_)
+        have := hfin k
+        cases hlk' : alookup k kvs' with
+        | none => rw [hlk'] at this; rw [this] at hz; cases hz
+        | some v' =>
+          rw [hlk'] at this
+          obtain ⟨z', hz', _, hl⟩ := this
+          rw [hz] at hz'; cases hz'; exact hl
     · intro k
       cases hlk' : alookup k kvs' with
       | some v' =>
@@ -1849,7 +1984,8 @@ theorem diff_correct (L : FloatLaws) (o : Opts) (ho : dispatchTag o = .list) {S 
         have hm' := mem_of_alookup hlk'
         cases hlk : alookup k kvs with
         | none =>
-          exact ⟨v', hmem2 k v' hm' (by simp [hlk]), Rel.refl L (hb'.2.of_mem hm').1⟩
+          exact ⟨v', hmem2 k v' hm' (by simp [hlk]), Rel.refl L (hb'.2.of_mem hm').1,
+            (hb'.2.of_mem hm').1.listDoc⟩
         | some v =>
           have := hmem1 k v (mem_of_alookup hlk)
           rw [hlk'] at this
@@ -1869,7 +2005,7 @@ theorem diff_correct (L : FloatLaws) (o : Opts) (ho : dispatchTag o = .list) {S 
   · -- object against something else
     intro kvs b _ _ hb' _ _ ha hb
     rw [diffNode_obj_other o kvs b hb']
-    refine ⟨b, ?_, Rel.refl L hb⟩
+    refine ⟨b, ?_, Rel.refl L hb, hb.listDoc⟩
     have := apply_root (.obj kvs) [.obj kvs] [b] (by simp) (by simp)
       (by simpa [single, Json.singleValue] using specEq_refl L ha)
     simpa [single, Json.singleValue] using this
@@ -1879,10 +2015,10 @@ theorem diff_correct (L : FloatLaws) (o : Opts) (ho : dispatchTag o = .list) {S 
     unfold diffCommon
     split
     · next he =>
-      refine ⟨a, by simp [applyStrictAll], ?_⟩
+      refine ⟨a, by simp [applyStrictAll], ?_, ha.listDoc⟩
       have e1 : specEq a b = true := by rw [specEq_eq_equals ha.listDoc hb.listDoc]; exact he
       exact ⟨e1, by rw [specEq_symm L hb ha]; exact e1⟩
-    · refine ⟨b, ?_, Rel.refl L hb⟩
+    · refine ⟨b, ?_, Rel.refl L hb, hb.listDoc⟩
       simp only [Bool.false_eq_true, if_false]
       have := apply_root a a.nodeList b.nodeList
         (by simp only [Json.nodeList]; split <;> simp)
@@ -1902,13 +2038,14 @@ theorem diff_correct (L : FloatLaws) (o : Opts) (ho : dispatchTag o = .list) {S 
     have hknr : ∀ w, (k, w) ∉ r := fun w hm => String.lt_irrefl k (hsk'.1 k w hm)
     -- the hunks for this member are hunks on the member, moved below the key
     have step : ∀ (D0 : Diff) (r0 : Json), applyStrictAll v D0 = some r0 →
-        ((r0 = .void ∧ alookup k kvs' = none) ∨ ∃ v', alookup k kvs' = some v' ∧ Rel r0 v') →
-        ∃ cur', applyStrictAll (.obj cur) (D0.map (Hunk.shift [.key k]) ++ diffKvs o false [] kvs' r) =
+        ((r0 = .void ∧ alookup k kvs' = none) ∨
+          ∃ v', alookup k kvs' = some v' ∧ Rel r0 v' ∧ r0.listDoc = true) →
+        ∃ cur', applyStrictAll (.obj cur) (D0.map (shiftHunk [.key k]) ++ diffKvs o false [] kvs' r) =
             some (.obj cur') ∧ keysSorted cur' = true ∧
           (∀ k0, (∀ v_1, (k0, v_1) ∉ (k, v) :: r) → alookup k0 cur' = alookup k0 cur) ∧
           (∀ k_1 v_1, (k_1, v_1) ∈ (k, v) :: r → match alookup k_1 kvs' with
             | none => alookup k_1 cur' = none
-            | some v' => ∃ z, alookup k_1 cur' = some z ∧ Rel z v') := by
+            | some v' => ∃ z, alookup k_1 cur' = some z ∧ Rel z v' ∧ z.listDoc = true) := by
       intro D0 r0 hr0 hres
       obtain ⟨cur1, g1, g2, g3, g4⟩ := applyStrictAll_key_frame' D0 k cur v hs hx r0 hr0
       obtain ⟨cur', f1, f2, f3, f4⟩ := ihK hS'.2 hT ha'.2 hb hsk'.2 cur1 g2 (fun k1 v1 hm => by
@@ -1925,20 +2062,20 @@ theorem diff_correct (L : FloatLaws) (o : Opts) (ho : dispatchTag o = .list) {S 
         rcases List.mem_cons.1 hm with e | hm
         · cases e
           rw [f3 k hknr, g4]
-          rcases hres with ⟨rfl, hlk⟩ | ⟨v', hlk, hres⟩
+          rcases hres with ⟨rfl, hlk⟩ | ⟨v', hlk, hres, hld⟩
           · rw [hlk]; rfl
           · rw [hlk]
             have hnv : r0.isVoid = false := by rw [hres.isVoid_eq]; exact (hb.lookup hlk).2
-            exact ⟨r0, by rw [hnv]; rfl, hres⟩
+            exact ⟨r0, by rw [hnv]; rfl, hres, hld⟩
         · exact f4 k1 v1 hm
     rw [diffKvs_cons]
     cases hlk : alookup k kvs' with
     | some v' =>
-      obtain ⟨r0, h1, h2⟩ := ihN v' (alookup_listDoc hlk hl') hS'.1 (sub_lookup hT hlk) ha'.1.1
+      obtain ⟨r0, h1, h2, h2'⟩ := ihN v' (alookup_listDoc hlk hl') hS'.1 (sub_lookup hT hlk) ha'.1.1
         (hb.lookup hlk).1
       simp only []
       rw [diffNode_at o ho v v' hv (alookup_listDoc hlk hl')]
-      exact step _ r0 h1 (.inr ⟨v', hlk, h2⟩)
+      exact step _ r0 h1 (.inr ⟨v', hlk, h2, h2'⟩)
     | none =>
       simp only []
       have h1 : applyStrictAll v [{ path := [], remove := v.nodeList }] = some .void := by
@@ -1946,20 +2083,20 @@ theorem diff_correct (L : FloatLaws) (o : Opts) (ho : dispatchTag o = .list) {S 
           (by simp) (by rw [single_nodeList]; exact specEq_refl L ha'.1.1)
         simpa [single, Json.singleValue] using this
       have := step _ .void h1 (.inl ⟨rfl, hlk⟩)
-      simpa [Hunk.shift] using this
+      simpa [shiftHunk] using this
   · -- end of a
     intro k s prev c R A b _ t pre hlen hk hp hR _ hb _ _ _
     subst hlen
     rw [diffRest_nilA]
-    obtain ⟨t', h⟩ := apply_accHunk L t pre R (A ++ b) [] prev .void hR hp AfterOK.nil
-    refine ⟨t', b, ?_, RelL.refl L hb⟩
+    obtain ⟨t', ht', h⟩ := apply_accHunk L t pre R (A ++ b) [] prev .void hR hp AfterOK.nil
+    refine ⟨t', b, ht', ?_, RelL.refl L hb, hb.listDoc⟩
     simpa [List.append_assoc] using h
   · -- end of b
     intro k s prev c R A a hne _ t pre hlen hk hp hR ha _ _ _ _
     subst hlen
     rw [diffRest_nilB _ _ _ _ _ _ _ _ _ hne]
-    obtain ⟨t', h⟩ := apply_accHunk L t pre (R ++ a) A [] prev .void (hR.append ha) hp AfterOK.nil
-    refine ⟨t', [], ?_, .nil⟩
+    obtain ⟨t', ht', h⟩ := apply_accHunk L t pre (R ++ a) A [] prev .void (hR.append ha) hp AfterOK.nil
+    refine ⟨t', [], ht', ?_, .nil, rfl⟩
     simpa [List.append_assoc] using h
   · -- both cursors at the next common element
     intro k s prev c R A x a' y b' _ _ hA hB ih t pre hlen hk hp hR ha hb hS hT hopt
@@ -1973,11 +2110,12 @@ theorem diff_correct (L : FloatLaws) (o : Opts) (ho : dispatchTag o = .list) {S 
     have hopt' : LOpt c.tail (hashList o a') (hashList o b') := by
       rw [hashList_cons, hashList_cons, ← hh, atC_true hA] at hopt
       exact hopt.both
-    obtain ⟨t1, h1⟩ := apply_accHunk L t pre R A (x :: a') prev x hR hp
+    obtain ⟨t1, ht1, h1⟩ := apply_accHunk L t pre R A (x :: a') prev x hR hp
       (AfterOK.cons x a' x (specEq_refl L ha.1))
-    obtain ⟨t', zs, h2, hrel⟩ := ih t1 (pre ++ A ++ [x]) (by simp; omega) rfl
+    obtain ⟨t', zs, ht', h2, hrel, hld⟩ := ih t1 (pre ++ A ++ [x]) (by simp; omega) rfl
       (PrevOK.concat _ x y hxy.2) GoodL.nil ha.2 hb.2 (sub_cons hS).2 (sub_cons hT).2 hopt'
-    refine ⟨t', x :: zs, ?_, .cons hxy hrel⟩
+    refine ⟨t', x :: zs, by rcases ht' with rfl | rfl <;> simp [ht1], ?_, .cons hxy hrel,
+      by simp [listDocList, ha.1.listDoc, hld]⟩
     rw [applyStrictAll_append, h1]
     simp only [Option.bind_some]
     simpa [List.append_assoc] using h2
@@ -1987,9 +2125,10 @@ theorem diff_correct (L : FloatLaws) (o : Opts) (ho : dispatchTag o = .list) {S 
     rw [diffRest_cons]
     simp only [hA, hB, Bool.and_false, Bool.false_eq_true, if_false, if_true]
     rw [hashList_cons o y] at hopt
-    obtain ⟨t', zs, h2, hrel⟩ := ih t pre hlen (by simp; omega) hp hR ha hb.2 hS (sub_cons hT).2
-      (hopt.skipB (atC_false hB))
-    refine ⟨t', y :: zs, ?_, .cons (Rel.refl L hb.1) hrel⟩
+    obtain ⟨t', zs, ht', h2, hrel, hld⟩ := ih t pre hlen (by simp; omega) hp hR ha hb.2 hS
+      (sub_cons hT).2 (hopt.skipB (atC_false hB))
+    refine ⟨t', y :: zs, ht', ?_, .cons (Rel.refl L hb.1) hrel,
+      by simp [listDocList, hb.1.listDoc, hld]⟩
     simpa [List.append_assoc] using h2
   · -- b at the common element: remove from a
     intro k s prev c R A x a' y b' _ _ hA hB ih t pre hlen hk hp hR ha hb hS hT hopt
@@ -1997,10 +2136,10 @@ theorem diff_correct (L : FloatLaws) (o : Opts) (ho : dispatchTag o = .list) {S 
     rw [diffRest_cons]
     simp only [hA, hB, Bool.false_and, Bool.false_eq_true, if_false, if_true]
     rw [hashList_cons o x] at hopt
-    obtain ⟨t', zs, h2, hrel⟩ := ih t pre hlen hk hp
+    obtain ⟨t', zs, ht', h2, hrel, hld⟩ := ih t pre hlen hk hp
       (hR.append (goodL_cons.2 ⟨ha'.1, GoodL.nil⟩)) ha'.2 hb (sub_cons hS).2 hT
       (hopt.skipA (atC_false hA))
-    refine ⟨t', zs, ?_, hrel⟩
+    refine ⟨t', zs, ht', ?_, hrel, hld⟩
     simpa [List.append_assoc] using h2
   · -- compatible containers: the accumulated hunk, the sub-diff below the index, the rest
     intro k s prev c R A x a' y b' hl hl' hA hB hs ihN ihR t pre hlen hk hp hR ha hb hS hT hopt
@@ -2018,35 +2157,36 @@ theorem diff_correct (L : FloatLaws) (o : Opts) (ho : dispatchTag o = .list) {S 
       exact hopt.heads_ne (atC_false hA)
     have hD0 : diffNode o false x y [] ≠ [] := fun e =>
       hne ((diff_empty_hash o ho N).1 x y hl.1 hl'.1 hS'.1 hT'.1 ha'.1 hb'.1 [] e)
-    obtain ⟨r, hr, hrel0⟩ := ihN hS'.1 hT'.1 ha'.1 hb'.1
+    obtain ⟨r, hr, hrel0, hldr⟩ := ihN hS'.1 hT'.1 ha'.1 hb'.1
     have hnv := sameContainerType_notVoid hs
     have hframe := (diff_frameOK o ho).1 x y hl.1 hl'.1 hnv.1 hnv.2
     rw [diffRest_cons]
     simp only [hA, hB, hs, Bool.false_and, Bool.false_eq_true, if_false, if_true]
     rw [diffNode_at o ho x y hl.1 hl'.1]
-    have hemp : (List.map (Hunk.shift [PathElem.idx (k : Int)]) (diffNode o false x y [])).isEmpty
+    have hemp : (List.map (shiftHunk [PathElem.idx (k : Int)]) (diffNode o false x y [])).isEmpty
         = false := by
       rw [List.isEmpty_map]
       cases hd : diffNode o false x y [] with
       | nil => exact absurd hd hD0
       | cons _ _ => rfl
     simp only [hemp, Bool.false_eq_true, if_false]
-    obtain ⟨t1, h1⟩ := apply_accHunk L t pre R A (x :: a') prev x hR hp
+    obtain ⟨t1, ht1, h1⟩ := apply_accHunk L t pre R A (x :: a') prev x hR hp
       (AfterOK.cons x a' x (specEq_refl L ha'.1))
-    obtain ⟨t2, h2⟩ := applyStrictAll_idx_frame _ hframe t1 (pre ++ A ++ x :: a') k x
+    obtain ⟨t2, ht2, h2⟩ := applyStrictAll_idx_frame _ hframe t1 (pre ++ A ++ x :: a') k x
       (by rw [hk, ← List.length_append]; exact getElem?_mid _ _ _) r hr
     have hset : (pre ++ A ++ x :: a').set k r = pre ++ A ++ r :: a' := by
       rw [hk, ← List.length_append]; exact set_mid _ _ _ _
     rw [hset] at h2
-    obtain ⟨t', zs, h3, hrel⟩ := ihR t2 (pre ++ A ++ [r]) (by simp; omega) rfl
+    obtain ⟨t', zs, ht', h3, hrel, hld⟩ := ihR t2 (pre ++ A ++ [r]) (by simp; omega) rfl
       (PrevOK.concat _ r y hrel0.2) GoodL.nil ha'.2 hb'.2 hS'.2 hT'.2
       ((hopt.skipA (atC_false hA)).skipB (atC_false hB))
-    refine ⟨t', r :: zs, ?_, .cons hrel0 hrel⟩
-    rw [applyStrictAll_append, applyStrictAll_append, h1]
-    simp only [Option.bind_some]
-    rw [h2]
-    simp only [Option.bind_some]
-    simpa [List.append_assoc] using h3
+    refine ⟨t', r :: zs, ?_, ?_, .cons hrel0 hrel, by simp [listDocList, hldr, hld]⟩
+    · rcases ht' with rfl | rfl <;> rcases ht2 with rfl | rfl <;> rcases ht1 with rfl | rfl <;> simp
+    · rw [applyStrictAll_append, applyStrictAll_append, h1]
+      simp only [Option.bind_some]
+      rw [h2]
+      simp only [Option.bind_some]
+      simpa [List.append_assoc] using h3
   · -- different elements
     intro k s prev c R A x a' y b' _ _ hA hB hs ih t pre hlen hk hp hR ha hb hS hT hopt
     have ha' := goodL_cons.1 ha
@@ -2054,10 +2194,11 @@ theorem diff_correct (L : FloatLaws) (o : Opts) (ho : dispatchTag o = .list) {S 
     rw [diffRest_cons]
     simp only [hA, hB, hs, Bool.false_and, Bool.false_eq_true, if_false]
     rw [hashList_cons o x, hashList_cons o y] at hopt
-    obtain ⟨t', zs, h2, hrel⟩ := ih t pre hlen (by simp; omega) hp
+    obtain ⟨t', zs, ht', h2, hrel, hld⟩ := ih t pre hlen (by simp; omega) hp
       (hR.append (goodL_cons.2 ⟨ha'.1, GoodL.nil⟩)) ha'.2 hb'.2 (sub_cons hS).2 (sub_cons hT).2
       ((hopt.skipA (atC_false hA)).skipB (atC_false hB))
-    refine ⟨t', y :: zs, ?_, .cons (Rel.refl L hb'.1) hrel⟩
+    refine ⟨t', y :: zs, ht', ?_, .cons (Rel.refl L hb'.1) hrel,
+      by simp [listDocList, hb'.1.listDoc, hld]⟩
     simpa [List.append_assoc] using h2
 
 
@@ -2066,22 +2207,22 @@ theorem diff_correct (L : FloatLaws) (o : Opts) (ho : dispatchTag o = .list) {S 
 /-! ## 11. the theorem -/
 
 mutual
-theorem good_subterms : ∀ (a : Json), Good a → ∀ x, x ∈ a.subterms → Good x
+theorem good_subterms : ∀ (a : Json), Good a → ∀ x, x ∈ (subterms a) → Good x
   | .arr t xs, h, x, hx => by
-    simp only [Json.subterms, List.mem_cons] at hx
+    simp only [subterms, List.mem_cons] at hx
     rcases hx with rfl | hx
     · exact h
     · exact goodL_subterms xs (good_arr.1 h).2 x hx
   | .obj kvs, h, x, hx => by
-    simp only [Json.subterms, List.mem_cons] at hx
+    simp only [subterms, List.mem_cons] at hx
     rcases hx with rfl | hx
     · exact h
     · exact goodK_subterms kvs (good_obj.1 h).2 x hx
-  | .void, h, x, hx => by simp only [Json.subterms, List.mem_singleton] at hx; exact hx ▸ h
-  | .null, h, x, hx => by simp only [Json.subterms, List.mem_singleton] at hx; exact hx ▸ h
-  | .bool _, h, x, hx => by simp only [Json.subterms, List.mem_singleton] at hx; exact hx ▸ h
-  | .num _, h, x, hx => by simp only [Json.subterms, List.mem_singleton] at hx; exact hx ▸ h
-  | .str _, h, x, hx => by simp only [Json.subterms, List.mem_singleton] at hx; exact hx ▸ h
+  | .void, h, x, hx => by simp only [subterms, List.mem_singleton] at hx; exact hx ▸ h
+  | .null, h, x, hx => by simp only [subterms, List.mem_singleton] at hx; exact hx ▸ h
+  | .bool _, h, x, hx => by simp only [subterms, List.mem_singleton] at hx; exact hx ▸ h
+  | .num _, h, x, hx => by simp only [subterms, List.mem_singleton] at hx; exact hx ▸ h
+  | .str _, h, x, hx => by simp only [subterms, List.mem_singleton] at hx; exact hx ▸ h
 theorem goodL_subterms : ∀ (xs : List Json), GoodL xs → ∀ x, x ∈ subtermsList xs → Good x
   | [], _, x, hx => by simp [subtermsList] at hx
   | y :: r, h, x, hx => by
@@ -2099,41 +2240,140 @@ theorem goodK_subterms : ∀ (kvs : List (String × Json)), GoodK kvs → ∀ x,
 end
 
 /-- **No hash collision** between the source and the target: a sub-term of `a` and a sub-term of
-    `b` with the same hash code are structurally equal. (List elements are matched by hash code.) -/
+    `b` with the same hash code are structurally equal. (List elements are matched by hash code; in
+    list mode the hash code does not depend on the options.) For documents of the domain this
+    says exactly that FNV-1a does not collide on the pairs (sub-term of `a`, sub-term of `b`). -/
 def HashOK (o : Opts) (a b : Json) : Prop :=
-  ∀ x, x ∈ a.subterms → ∀ y, y ∈ b.subterms → hashCode o x = hashCode o y → specEq x y = true
+  ∀ x, x ∈ (subterms a) → ∀ y, y ∈ (subterms b) → hashCode o x = hashCode o y → specEq x y = true
 
 /-- **No signed-zero pair**: a number of `a` and a number of `b` that are equal as floats have the
-    same bit pattern. (Scalars are compared with `Equals`, list elements by hash code of the bits:
-    `0` against `-0` inside an object gives an empty sub-diff for elements with different hash
-    codes, and the after-context of the enclosing list hunk is then wrong; see the report.) -/
+    same bit pattern. Needed because scalars are compared with `Equals` while list elements are
+    matched by the hash code of the bits: `{"a":0}` against `{"a":-0}` gives an EMPTY sub-diff for
+    two list elements with different hash codes, and `diffRest` then records the wrong
+    after-context for the enclosing list hunk (see `Example.cexA` below: the diff does not apply). -/
 def ZeroOK (a b : Json) : Prop :=
-  ∀ u v, Json.num u ∈ a.subterms → Json.num v ∈ b.subterms → numWithin 0 u v = true → u = v
+  ∀ u v, Json.num u ∈ (subterms a) → Json.num v ∈ (subterms b) → numWithin 0 u v = true → u = v
 
 /-- **C01, list mode, strict strategy.** For documents of the domain (list documents, sorted
-    unique keys, finite numbers, no void member), the hunks of `a.Diff(b)` apply in sequence to `a`
-    under the reference semantics of hunks, contexts included, and the result is structurally
-    equal to `b`; without a precision option that is the advertised equivalence under `o`. -/
+    unique keys, finite numbers, no void member) without hash collision and without `0` / `-0`
+    pair, the hunks of `a.Diff(b)` apply in sequence to `a` under the reference semantics of hunks
+    (`Jd.Spec.applyStrictAll`: paths, removed values and before / after contexts all checked), and
+    the result `r` is structurally equal to `b` (`specEq` = `equivB []`: ordered lists, exact
+    numbers), read from either side; it is a list document, and it is equal to `b` for the
+    library's `Equals` with the options `o` (under `PrecMono o` when `o` has a precision). -/
 theorem diffM_list_correct (L : FloatLaws) (o : Opts) (ho : dispatchTag o = .list)
     (hm : isMerge o = false) (a b : Json)
-    (ha1 : a.listDoc = true) (ha2 : a.wf = true) (ha3 : a.finiteNums = true) (ha4 : a.memOK = true)
-    (hb1 : b.listDoc = true) (hb2 : b.wf = true) (hb3 : b.finiteNums = true) (hb4 : b.memOK = true)
+    (ha1 : a.listDoc = true) (ha2 : a.wf = true) (ha3 : a.finiteNums = true) (ha4 : (memOK a) = true)
+    (hb1 : b.listDoc = true) (hb2 : b.wf = true) (hb3 : b.finiteNums = true) (hb4 : (memOK b) = true)
     (H : HashOK o a b) (Z : ZeroOK a b) :
     ∃ r, applyStrictAll a (diffM o a b) = some r ∧ specEq r b = true ∧ specEq b r = true ∧
-      (precOf o = 0 → equivB o r b = true) := by
+      r.listDoc = true ∧ (PrecMono o → equivB o r b = true ∧ equals o r b = true) := by
   have ha : Good a := ⟨ha1, ha2, ha3, ha4⟩
   have hb : Good b := ⟨hb1, hb2, hb3, hb4⟩
-  have N : NoCollision o a.subterms b.subterms :=
+  have N : NoCollision o (subterms a) (subterms b) :=
     ⟨fun x hx y hy h => by
       have e := H x hx y hy h
       exact ⟨e, by rw [specEq_symm L (good_subterms b hb y hy) (good_subterms a ha x hx)]; exact e⟩,
      Z⟩
-  obtain ⟨r, h, hr⟩ := (diff_correct L o ho N).1 a b ha1 hb1 (fun _ h => h) (fun _ h => h) ha hb
-  refine ⟨r, ?_, hr.1, hr.2, fun hp => equivB_of_specEq ho hp hr.1⟩
-  unfold diffM
-  rw [hm]
-  exact h
+  obtain ⟨r, h, hr, hld⟩ := (diff_correct L o ho N).1 a b ha1 hb1 (fun _ h => h) (fun _ h => h) ha hb
+  refine ⟨r, ?_, hr.1, hr.2, hld, fun hp => ?_⟩
+  · unfold diffM
+    rw [hm]
+    exact h
+  · have e := equivB_mono o ho hp r b hr.1
+    exact ⟨e, by rw [equals_eq_equivB_list o ho r b hld hb1]; exact e⟩
 
+/-- the same without a precision option: the patched document `Equals` the target -/
+theorem diffM_list_correct_noPrecision (L : FloatLaws) (o : Opts) (ho : dispatchTag o = .list)
+    (hm : isMerge o = false) (hp : precOf o = 0) (a b : Json)
+    (ha1 : a.listDoc = true) (ha2 : a.wf = true) (ha3 : a.finiteNums = true) (ha4 : (memOK a) = true)
+    (hb1 : b.listDoc = true) (hb2 : b.wf = true) (hb3 : b.finiteNums = true) (hb4 : (memOK b) = true)
+    (H : HashOK o a b) (Z : ZeroOK a b) :
+    ∃ r, applyStrictAll a (diffM o a b) = some r ∧ equivB o r b = true ∧ equals o r b = true := by
+  obtain ⟨r, h1, _, _, _, h2⟩ :=
+    diffM_list_correct L o ho hm a b ha1 ha2 ha3 ha4 hb1 hb2 hb3 hb4 H Z
+  exact ⟨r, h1, h2 (PrecMono.of_noPrecision hp)⟩
+
+/-! ## 12. non-vacuity, and the counterexample that makes `ZeroOK` necessary -/
+
+namespace Example
+
+def one : Json := .num 0x3FF0000000000000
+/-- `[true, 1, [1], null]` -/
+def exA : Json := .arr .raw [.bool true, one, .arr .raw [one], .null]
+/-- `[false, 1, [1, 1], null, null]` -/
+def exB : Json := .arr .raw [.bool false, one, .arr .raw [one, one], .null, .null]
+
+-- three hunks: one at `[0]`, one inside the nested list at `[2, 1]`, one at `[4]`
+#eval (diffM [] exA exB).map (·.path)
+
+set_option maxRecDepth 8000 in
+/-- the hypotheses of `diffM_list_correct` hold for this pair (given the float laws) -/
+theorem hyps (L : FloatLaws) :
+    exA.listDoc = true ∧ exA.wf = true ∧ exA.finiteNums = true ∧ (memOK exA) = true ∧
+    exB.listDoc = true ∧ exB.wf = true ∧ exB.finiteNums = true ∧ (memOK exB) = true ∧
+    HashOK [] exA exB ∧ ZeroOK exA exB := by
+  refine ⟨by decide, by decide, by decide, by decide, by decide, by decide, by decide, by decide,
+    ?_, ?_⟩
+  · intro x hx y hy h
+    simp [exA, exB, one, subterms, subtermsList] at hx hy
+    have g1 : Good one := ⟨by decide, by decide, by decide, by decide⟩
+    have g2 : Good Json.null := ⟨by decide, by decide, by decide, by decide⟩
+    rcases hx with rfl | rfl | rfl | rfl | rfl | rfl <;>
+      rcases hy with rfl | rfl | rfl | rfl | rfl | rfl <;>
+      first
+        | exact absurd h (by decide)
+        | exact specEq_refl L g1
+        | exact specEq_refl L g2
+  · intro u v hu hv _
+    simp only [exA, exB, subterms, subtermsList, List.cons_append, List.nil_append,
+      List.append_nil, List.mem_cons, List.not_mem_nil, or_false, one] at hu hv
+    simp at hu hv
+    rw [hu, hv]
+
+example (L : FloatLaws) :
+    ∃ r, applyStrictAll exA (diffM [] exA exB) = some r ∧ specEq r exB = true := by
+  obtain ⟨h1, h2, h3, h4, h5, h6, h7, h8, h9, h10⟩ := hyps L
+  obtain ⟨r, hr, e, _⟩ := diffM_list_correct L [] rfl rfl exA exB h1 h2 h3 h4 h5 h6 h7 h8 h9 h10
+  exact ⟨r, hr, e⟩
+
+
+/-! ### why `ZeroOK` is needed: a pair on which `a.Diff(b)` does NOT apply to `a`
+
+`a = [1, {"a": 0}]`, `b = [2, {"a": -0}]` (all other hypotheses hold; checked by `decide` below).
+The two objects have different hash codes (the hash is taken over the bits of the numbers) so they
+are not a common element, they are compatible containers, and their sub-diff is EMPTY because
+scalars are compared with `Equals` (`0 == -0` as floats). `diffRest` then takes the after-context of
+the accumulated hunk `- 1 + 2` from the position AFTER the object (`after()` is evaluated once
+more after the cursor has advanced, because `len(d) < 2`), here the end of the array, while the
+element that follows the removed `1` in the document is the object: the context check fails.
+The Go library (v2, `a.Patch(a.Diff(b))`) answers `invalid patch. expected {} after. got map[a:0]`
+on this input; the model reproduces it: -/
+
+def pz : Json := .num 0
+def nz : Json := .num 0x8000000000000000
+def cexA : Json := .arr .raw [one, .obj [("a", pz)]]
+def cexB : Json := .arr .raw [.num 0x4000000000000000, .obj [("a", nz)]]
+
+-- one hunk `@ [0]  [ -1 +2 ]` whose after-context is the end-of-array marker
+#eval diffM [] cexA cexB
+-- `none`: the hunk is rejected
+#eval applyStrictAll cexA (diffM [] cexA cexB)
+-- `true`: `0` and `-0` are equal as floats, which is what `ZeroOK` excludes
+#eval numWithin 0 0 0x8000000000000000
+
+example : cexA.listDoc = true ∧ cexA.wf = true ∧ cexA.finiteNums = true ∧ (memOK cexA) = true ∧
+    cexB.listDoc = true ∧ cexB.wf = true ∧ cexB.finiteNums = true ∧ (memOK cexB) = true := by
+  decide
+
+end Example
+
+/-! ### axioms -/
+
+#print axioms diffM_list_correct_scalar_arrays
+#print axioms diff_correct
 #print axioms diffM_list_correct
+#print axioms diffM_list_correct_noPrecision
+#print axioms Example.hyps
 
-end Jd
+end Jd.DPL
